@@ -2,9 +2,14 @@
 package http
 
 import (
+	"bytes"
 	"encoding/json"
 	"net/url"
 
+	"github.com/brutella/hc/crypto/chacha20poly1305"
+	"github.com/brutella/hc/crypto/curve25519"
+	"github.com/brutella/hc/crypto/hkdf"
+	"github.com/brutella/hc/db"
 	"github.com/brutella/hc/hap"
 	"github.com/brutella/hc/hap/pair"
 	"github.com/brutella/hc/util"
@@ -23,13 +28,20 @@ func Harness_C01_q_unverified_request() {
 	_, sess := w.connect("10.0.0.9:6000", false)
 	verif.Assert(sess.Encrypter() == nil && sess.Decrypter() == nil, "attacker-session-unverified")
 	remote := "10.0.0.9:6000"
+	// the accessory's own entity and one paired controller are stored, as on a real device
+	w.db.SaveEntity(db.NewEntity(w.dev.name, w.dev.pub, w.dev.priv))
+	w.db.SaveEntity(dbEntity("controller-1"))
+	// Prelude: partial / failed / forged pairing exchanges by the unpaired peer on its own
+	// connection. None of them may turn the connection into a verified one.
+	c01Prelude(w, remote)
+	sess.Decrypter() // what the next read on the connection would do
+	verif.Assert(sess.Encrypter() == nil, "forged-or-partial-exchanges-do-not-verify")
 
 	oldOn := w.on.Characteristic.Value
 	oldBright := w.bright.Characteristic.Value
 	remoteUpdates := 0
 	w.bright.OnValueRemoteUpdate(func(int) { remoteUpdates++ })
 	w.on.OnValueRemoteUpdate(func(bool) { remoteUpdates++ })
-	w.db.SaveEntity(dbEntity("controller-1"))
 	saves0, deletes0 := w.db.saves, w.db.deletes
 
 	endpoints := []string{"/accessories", "/characteristics", "/pairings"}
@@ -82,6 +94,57 @@ func Harness_C01_q_unverified_request() {
 	}
 	verif.Assert(rec.status >= 400, "refused-with-error-status")
 	verif.Reach("end")
+}
+
+// c01Prelude performs one of several partial / failed / forged pairing exchanges.
+func c01Prelude(w *zzWorld, remote string) {
+	post := func(path string, body []byte) util.Container {
+		h := verif.MuxHandler(w.srv.Mux, path)
+		rec := newRecorder()
+		verif.Panics(func() { h.ServeHTTP(rec, zzRequest("POST", path, remote, nil, body)) })
+		c, err := util.NewTLV8ContainerFromReader(bytes.NewBuffer(append([]byte{}, rec.body...)))
+		if err != nil || rec.status != 200 {
+			return nil
+		}
+		return c
+	}
+	tlv := func(items ...interface{}) []byte {
+		c := util.NewTLV8Container()
+		for i := 0; i+1 < len(items); i += 2 {
+			switch v := items[i+1].(type) {
+			case byte:
+				c.SetByte(uint8(items[i].(int)), v)
+			case []byte:
+				c.SetBytes(uint8(items[i].(int)), v)
+			case string:
+				c.SetString(uint8(items[i].(int)), v)
+			}
+		}
+		return c.BytesBuffer().Bytes()
+	}
+	kind := verif.Choice("prelude", 5)
+	verif.Fact("prelude", []string{"none", "pair-setup start", "pair-setup start+verify(A=0)", "pair-verify start", "pair-verify start+forged finish"}[kind])
+	switch kind {
+	case 1, 2:
+		post("/pair-setup", tlv(pair.TagPairingMethod, byte(0), pair.TagSequence, byte(1)))
+		if kind == 2 {
+			post("/pair-setup", tlv(pair.TagSequence, byte(3), pair.TagPublicKey, make([]byte, 384), pair.TagProof, verif.Bytes("proof", 64)))
+		}
+	case 3, 4:
+		sk := curve25519.GeneratePrivateKey()
+		pk := curve25519.PublicKey(sk)
+		m2 := post("/pair-verify", tlv(pair.TagSequence, byte(1), pair.TagPublicKey, pk[:]))
+		if kind == 4 && m2 != nil && len(m2.GetBytes(pair.TagPublicKey)) == 32 {
+			var accEph [32]byte
+			copy(accEph[:], m2.GetBytes(pair.TagPublicKey))
+			shared := curve25519.SharedSecret(sk, accEph)
+			key, _ := hkdf.Sha512(shared[:], []byte("Pair-Verify-Encrypt-Salt"), []byte("Pair-Verify-Encrypt-Info"))
+			name := []string{w.dev.name, "controller-1", "nobody"}[verif.Choice("forged-name", 3)]
+			sub := tlv(pair.TagUsername, name, pair.TagSignature, verif.Bytes("forged-signature", 64))
+			ct, mac, _ := chacha20poly1305.EncryptAndSeal(key[:], []byte("PV-Msg03"), sub, nil)
+			post("/pair-verify", tlv(pair.TagSequence, byte(3), pair.TagEncryptedData, append(ct, mac[:]...)))
+		}
+	}
 }
 
 // Vacuity twin: the same requests on the verified connection do take effect.
